@@ -26,6 +26,8 @@ def check(run):
     verify.verify(run, c.E, c.contracts["meth:images.Images._add_1_1:any"], crosscheck=False)
     verify.verify(run, c.E, c.contracts["meth:rpms.Rpms.deserialize_0_3"])
     verify.verify(run, c.E, c.contracts["meth:rpms.Rpms.deserialize_0_3:2v"])
+    # ... and on a legacy document of ARBITRARY size (witness rule over the four nested loops, add() recorded)
+    verify.verify(run, c.E, c.contracts["meth:rpms.Rpms.deserialize_0_3:any"], crosscheck=False)
     verify.verify(run, c.E, c.contracts["gate:images.Images.deserialize"])
     IA.ast_only_writer(run, c.src, "images", "Images", "images", ["add"])
     IA.ast_only_writer(run, c.src, "rpms", "Rpms", "rpms", ["add", "deserialize_0_3", "deserialize_1_0"])
